@@ -17,7 +17,9 @@ def leWords (xs : List W) : Bytes := xs.flatMap fun x => le 8 x.toNat
 
 def unleWords : Nat → Bytes → List W
   | 0, _ => []
-  | fuel + 1, bs => if bs.length < 8 then [] else BitVec.ofNat 64 (unle (bs.take 8)) :: unleWords fuel (bs.drop 8)
+  | fuel + 1, bs =>
+    if (bs.take 8).length < 8 then []
+    else BitVec.ofNat 64 (unle (bs.take 8)) :: unleWords fuel (bs.drop 8)
 
 /-- `a[i-1] == a[i]` for all adjacent pairs (`isConstDelta` accumulates this over the deltas). -/
 def adjEq : List W → Bool
